@@ -970,6 +970,30 @@ def _availability_polarity(f, root, _seen=None) -> list[tuple[ast.AST, bool | No
     return out
 
 
+def _selection_roots(p, f, arg):
+    """[(function, expression)] the expressions that build `arg`: its origins in `f`, and - when an origin is a plain
+    (un-awaited) call of a synchronous helper of this code base whose every exit returns a value - the origins of the
+    helper's returned expressions, read in the helper's own scope (inlining bound: one call)."""
+    out = []
+    for o in origins(f, arg):
+        h = None
+        if isinstance(o, ast.Call) and not isinstance(parent(o), ast.Await):
+            qs = p.resolve_call(f, o, fanout=False)
+            if len(qs) == 1 and p.has(qs[0]):
+                try:
+                    h = p.func(qs[0])
+                except Exception:  # noqa: BLE001
+                    h = None
+        if h is not None and isinstance(h.node, ast.FunctionDef) and not h.decorators:
+            rets = [n for n in h.body_nodes() if isinstance(n, ast.Return)]
+            if rets and all(r.value is not None for r in rets):
+                for r in rets:
+                    out += [(h, x) for x in origins(h, r.value)]
+                continue
+        out.append((f, o))
+    return out
+
+
 def _denotes_attr(f, x, attr: str) -> bool:
     """`x` reads attribute `attr` of some object: `<obj>.<attr>` itself, or a local of `f` whose every definition is a
     plain whole assignment of such an attribute read (`port_tokens = mapper.port_tokens`: the attribute chain bound
@@ -1200,15 +1224,15 @@ def r4(ctx):
             b = bind_args(step_restore.node, c) or {}
             arg = b.get("on_tokens")
             pol = []
-            if arg is not None:
-                for o in origins(f, arg):
-                    pol += _availability_polarity(f, o)
+            roots = _selection_roots(p, f, arg) if arg is not None else []
+            for hf, o in roots:
+                pol += _availability_polarity(hf, o)
             found = True
             ok = bool(pol) and all(v is False for _, v in pol)
-            for o in origins(f, arg) if arg is not None else []:
-                for sub in [x for x in ast.walk(o) if isinstance(x, ast.Subscript) and _denotes_attr(f, x.value, "port_tokens")]:
+            for hf, o in roots:
+                for sub in [x for x in ast.walk(o) if isinstance(x, ast.Subscript) and _denotes_attr(hf, x.value, "port_tokens")]:
                     known = membership_fact(expr_facts(sub), lambda e: unparse(e) == unparse(sub.slice),
-                                            lambda e: mentions(f, e, lambda k: _denotes_attr(f, k, "port_tokens"), depth=0))
+                                            lambda e, hf=hf: mentions(hf, e, lambda k: _denotes_attr(hf, k, "port_tokens"), depth=0))
                     ok = ok and known is True  # an unmapped port has no entry: `port_tokens[name]` would raise KeyError
             ctx.ob("R4", "restore receives exactly the unavailable output tokens", ok, func=f, node=c, instance="restore:unavailable",
                    message="the on_tokens argument of restore is not filtered by `not token_availability[...]`: "
